@@ -737,6 +737,7 @@ def gen_c14_all(env, tier):
 def gen_c04_all(env, tier):
     gen_c04(env, tier)
     gen_wide(env, tier, "C04")
+    gen_reuse(env, tier, "C04")          # a function object used on a second cube: which cells are missing is a fact about that cube
     from . import c13
     c13.pooled_blocks(env, tier, own="C04")          # the missing rule through the worker pool (scheduled threads)
 
